@@ -1418,7 +1418,89 @@ theorem goFprintf_closed (d : MDir) (h : d.WF) (hw : d.width.length ≤ 6) (v : 
     simp only [List.cons_append] at hp
     rw [hp]
     simp only [not_true_eq_false] at hvok
-    simp only [ne_eq, not_true_eq_false, hvok, if_false, MDir.wid, hwd]
+    simp only [not_true_eq_false, hvok, if_false, MDir.wid, hwd]
     simp
+
+/-! ## Go's number and string formatting is C's -/
+
+/-- fmtInteger after the sign and the digits have been determined. -/
+def fmtCore (fl : Flags) (wid : Option Nat) (sign ds : Bytes) : Bytes :=
+  let prec : Nat := match wid with
+    | some w => if fl.zero ∧ ¬ fl.minus then w - sign.length else 0
+    | none => 0
+  let body := sign ++ (List.replicate (prec - ds.length) 48 ++ ds)
+  pad { fl with zero := false } wid body.length body
+
+theorem fmtInteger_core (fl : Flags) (wid : Option Nat) (u base : Nat) (isSigned : Bool) :
+    fmtInteger fl wid u base isSigned =
+      fmtCore fl wid
+        (if (isSigned && decide (u ≥ two63)) = true then [45] else if fl.plus then [43]
+          else if fl.space then [32] else [])
+        (natDigits base (if (isSigned && decide (u ≥ two63)) = true then two64 - u else u)) := by
+  unfold fmtInteger fmtCore
+  cases hneg : (isSigned && decide (u ≥ two63))
+  · cases hp : fl.plus <;> cases hs : fl.space <;> cases wid <;> simp
+  · cases wid <;> simp
+
+/-- The correspondence between Go's flag/width record and the specification's directive. -/
+structure FlagsMatch (fl : Flags) (wid : Option Nat) (sd : Spec.Dir) : Prop where
+  minus : sd.minus = fl.minus
+  plus : sd.plus = fl.plus
+  space : sd.space = fl.space
+  zero : sd.zero = fl.zero
+  width : sd.width = wid.getD 0
+  pos : ∀ w, wid = some w → w > 0
+
+theorem fmtCore_spec (fl : Flags) (wid : Option Nat) (sd : Spec.Dir) (hm : FlagsMatch fl wid sd)
+    (sign ds : Bytes) (hsign : sign.length ≤ 1) : fmtCore fl wid sign ds = Spec.fmtNum sd sign ds := by
+  unfold fmtCore Spec.fmtNum
+  rw [hm.zero, hm.minus, hm.width]
+  cases wid with
+  | none =>
+    simp only [pad, Option.getD_none, Nat.zero_sub, List.replicate_zero, List.nil_append]
+    split
+    · simp [Spec.zeros]
+    · simp [Spec.padTo, Spec.spaces]
+  | some w =>
+    have hw : w > 0 := hm.pos w rfl
+    have hw0 : w ≠ 0 := by omega
+    simp only [pad, Option.getD_some, hw0, if_false]
+    cases hz : fl.zero <;> cases hmn : fl.minus
+    · simp [Spec.padTo, Spec.spaces]
+    · simp [Spec.padTo, Spec.spaces]
+    · have hlen : w - (sign.length + (w - sign.length - ds.length + ds.length)) = 0 := by omega
+      simp [Spec.zeros, hlen]
+    · simp [Spec.padTo, Spec.spaces]
+
+theorem toU64_neg_iff (v : Int) (hlo : -9223372036854775808 ≤ v) (hhi : v ≤ 9223372036854775807) :
+    (toU64 v ≥ two63 ↔ v < 0) ∧ (v < 0 → two64 - toU64 v = v.natAbs) ∧ (¬ v < 0 → toU64 v = v.natAbs) := by
+  unfold toU64 two63 two64
+  refine ⟨?_, ?_, ?_⟩ <;> omega
+
+/-- `%d` of a Go `int`: C's `%d` with the same flags and width. -/
+theorem fmtInteger_signed (fl : Flags) (wid : Option Nat) (sd : Spec.Dir) (hm : FlagsMatch fl wid sd)
+    (v : Int) (hlo : -9223372036854775808 ≤ v) (hhi : v ≤ 9223372036854775807) :
+    fmtInteger fl wid (toU64 v) 10 true = Spec.fmtSigned sd v := by
+  obtain ⟨h1, h2, h3⟩ := toU64_neg_iff v hlo hhi
+  rw [fmtInteger_core]
+  unfold Spec.fmtSigned
+  rw [hm.plus, hm.space]
+  by_cases hv : v < 0
+  · have hneg : (true && decide (toU64 v ≥ two63)) = true := by simp [h1.2 hv]
+    simp only [hneg, if_true, hv, h2 hv]
+    exact fmtCore_spec fl wid sd hm _ _ (by simp)
+  · have hneg : (true && decide (toU64 v ≥ two63)) = false := by
+      simp only [Bool.true_and, decide_eq_false_iff_not]; intro h; exact hv (h1.1 h)
+    simp only [hneg, Bool.false_eq_true, if_false, hv, h3 hv]
+    exact fmtCore_spec fl wid sd hm _ _ (by split <;> [simp; (split <;> simp)])
+
+/-- `%d`/`%o`/`%x` of a Go `uint` without `+`/space: C's `%u`/`%o`/`%x`. -/
+theorem fmtInteger_unsigned (fl : Flags) (wid : Option Nat) (sd : Spec.Dir) (hm : FlagsMatch fl wid sd)
+    (hp : fl.plus = false) (hs : fl.space = false) (base u : Nat) :
+    fmtInteger fl wid u base false = Spec.fmtUnsigned sd base u := by
+  rw [fmtInteger_core]
+  unfold Spec.fmtUnsigned
+  simp only [Bool.false_and, Bool.false_eq_true, if_false, hp, hs]
+  exact fmtCore_spec fl wid sd hm _ _ (by simp)
 
 end ShVerif.C24
